@@ -1,7 +1,26 @@
 (* Regenerated obligations for C04 (scrubInsertionIDs: the walk that removes the injected ids; the model Gw/Points.v scrub_location was written from this skeleton). *)
 From Coq Require Import String.
 From Gen Require Import Skeletons.
-From GW Require Import Verified.
+From GW Require Import Verified VerifiedBodies.
 
 Lemma middlewares_scrubInsertionIDs_skeleton : gen_middlewares_scrubInsertionIDs = verified_middlewares_scrubInsertionIDs.
+Proof. reflexivity. Qed.
+
+(* bodies with their conditions (VerifiedBodies.v) *)
+Lemma plan_extractSelection_cond_body : gen_plan_extractSelection_cond = verified_plan_extractSelection_cond.
+Proof. reflexivity. Qed.
+
+Lemma plan_generateScrubFields_body : gen_plan_generateScrubFields = verified_plan_generateScrubFields.
+Proof. reflexivity. Qed.
+
+Lemma plan_generateScrubFieldsWalk_body : gen_plan_generateScrubFieldsWalk = verified_plan_generateScrubFieldsWalk.
+Proof. reflexivity. Qed.
+
+Lemma plan_containsPath_body : gen_plan_containsPath = verified_plan_containsPath.
+Proof. reflexivity. Qed.
+
+Lemma execute_executorFindInsertionPoints_cond_body : gen_execute_executorFindInsertionPoints_cond = verified_execute_executorFindInsertionPoints_cond.
+Proof. reflexivity. Qed.
+
+Lemma middlewares_scrubInsertionIDs_cond_body : gen_middlewares_scrubInsertionIDs_cond = verified_middlewares_scrubInsertionIDs_cond.
 Proof. reflexivity. Qed.
